@@ -88,7 +88,14 @@ class LoopWorld(fs.ServerWorld):
 
     async def start(self):
         import websockets
-        self.server = await websockets.serve(self.connector.handler, "127.0.0.1", 0, max_size=None)
+        for attempt in range(50):
+            try:
+                self.server = await websockets.serve(self.connector.handler, "127.0.0.1", 0, max_size=None)
+                break
+            except OSError:
+                if attempt == 49:
+                    raise
+                await asyncio.sleep(0.2)
         self.port = self.server.sockets[0].getsockname()[1]
 
     def open(self, sid, name="c", cid=None):
